@@ -2008,6 +2008,10 @@ class FortranFile:
             add_line_comment(file_ast, docs)
             return False
 
+        # A `!>` block documents what follows it: the trailing documentation of
+        # the previous line is complete at this point
+        if doc_match.group(1) == ">":
+            add_line_comment(file_ast, docs)
         _ln = ln
         ln, docs[:], predocmark = self.get_docstring(ln, line, doc_match, docs)
 
@@ -2055,7 +2059,9 @@ class FortranFile:
         for i in range(ln, self.nLines):
             next_line = self.get_line(i, pp_content=True)
             match = self.DOC_COMMENT_MATCH.match(next_line)
-            if not match:
+            # (a `!>` line after a block that documents the preceding entity
+            # starts the documentation of the next one)
+            if not match or (match.group(1) == ">" and not predocmark):
                 ln = i
                 break
             docstring.append(next_line[match.end(0) :].strip())
